@@ -53,6 +53,7 @@ PROPS["C16"] = {
     "assumptions": [FIXTURE, "offline CPUs keep their cpuN/nodeM link (discovery requires it)"],
     "units": [
         {"name": "discovery", "pkg": "./pkg/sysfs", "run": "^TestVerifC16Discovery$", "replay_run": "^TestVerifC16DiscoveryReplay$", "q": 300, "t": 40000},
+        {"name": "pool-tree", "pkg": "./pkg/resmgr", "run": "^TestVerifC16Pools$", "replay_run": "^TestVerifC16PoolsReplay$", "q": 300, "t": 40000, "per_proc": 1500},
     ],
     "floor_q": 20, "floor_t": 500,
 }
